@@ -36,33 +36,43 @@ def run(ctx, F):
                 clos.append((f, c, F.fn(t[1][1])))
     ctx.floor("C30.transition-table", len(clos), 3, "closures passed to bulk_transition_state")
     nrows = 0
+    from .paths import PathEval
+    discr = {v: k for k, v in rank.items()}   # variant name -> discriminant
     for f, c, cl in clos:
-        for b, t, g in ret_table(cl):
-            frm = [p.val for p in g if p.val in STATES and show(p.tree) in ("arg3",)]
-            s = show(t)
-            if "from_residual" in s:
-                continue   # error propagated by `?`: no state change
-            ctx.judge(len(frm) == 1, "C30.transition-table", "%s: row at bb%d is selected by the old state" % (short(cl.q), b), expected="return guarded by `state == <variant>`", found=str([("%s==%s" % (show(p.tree)[:30], p.val)) for p in g]),
-                      where=where(cl), key="C30.transition-table|sel|%s" % cl.q)
-            if len(frm) != 1:
+        rows = ret_table(cl)
+        pe = PathEval(cl, {"state": r"^discr\(arg3\)$"})
+        outer = outermost(F, cl)
+        for S in STATES:
+            reach = pe.explore(0, {"state": rank[S]})
+            mine = [(b, t, g) for b, t, g in rows if b in reach and "from_residual" not in show(t)]
+            outs = set()
+            for b, t, g in mine:
+                s_ = show(t)
+                m = re.search(r"MapState::(\w+)", s_)
+                outs.add(m.group(1) if (m and "Some" in s_) else ("None" if "None" in s_ else "?" + s_[:40]))
+            if not mine:
+                ctx.ok("C30.transition-table", "%s: old state %s is rejected (every path diverges or propagates an error)" % (short(cl.q), S), "no state is written")
                 continue
             nrows += 1
-            m = re.search(r"MapState::(\w+)", s)
-            to = m.group(1) if m and "Some" in s else None
-            if to is None:
-                ok_none = "None" in s
-                ctx.judge(ok_none, "C30.transition-table", "%s: %s stays" % (short(cl.q), frm[0]), expected="Ok(None)", found=s[:80], where=where(cl), key="C30.transition-table|row|%s|%s" % (cl.q, frm[0]))
+            ctx.judge(len(outs) == 1 and not any(o.startswith("?") for o in outs), "C30.transition-table", "%s: old state %s has exactly one outcome" % (short(cl.q), S),
+                      expected="Ok(None) or Ok(Some(one new state)) for this old state (on every arrangement of the match)", found=str(sorted(outs)), where=where(cl), key="C30.transition-table|sel|%s|%s" % (cl.q, S))
+            if len(outs) != 1:
                 continue
-            ctx.judge(rank[to] > rank[frm[0]], "C30.transition-table", "%s: %s -> %s moves forward" % (short(cl.q), frm[0], to), expected="rank(new) > rank(old)", found="%s -> %s" % (frm[0], to), where=where(cl),
-                      key="C30.transition-table|row|%s|%s" % (cl.q, frm[0]))
-            # OS call before the state change (when the row maps memory)
-            os_calls = [x for x in live_calls(cl) if x.q and x.q.startswith("util::os::") and cl.cfg.dominates(x.bb, b) and frm[0] in [p.val for p in guards(cl, x.bb)]]
-            outer = outermost(F, cl)
+            to = outs.pop()
+            if to == "None":
+                ctx.ok("C30.transition-table", "%s: %s stays" % (short(cl.q), S), "Ok(None)")
+                continue
+            ctx.judge(to in rank and rank[to] > rank[S], "C30.transition-table", "%s: %s -> %s moves forward" % (short(cl.q), S, to), expected="rank(new) > rank(old)", found="%s -> %s" % (S, to), where=where(cl),
+                      key="C30.transition-table|row|%s|%s" % (cl.q, S))
             if outer.q.endswith("record_quarantined_range"):
                 continue   # the range was already reserved by the caller's dzmmap_anywhere/preferred `?`
-            okos = bool(os_calls) and any("branch" in show(p.tree) and p.val == "Continue" for p in g)
-            ctx.judge(okos, "C30.os-before-state", "%s: %s -> %s only after the OS call succeeded" % (short(cl.q), frm[0], to), expected="OS::dzmmap(..)? precedes Ok(Some(new_state))", found="os calls=%d" % len(os_calls),
-                      where=where(cl), key="C30.os-before-state|%s|%s" % (cl.q, frm[0]))
+            # the OS call (with `?`) precedes the state change on the paths of this old state
+            okos = True
+            for b, t, g in mine:
+                os_calls = [x for x in live_calls(cl) if x.q and x.q.startswith("util::os::") and x.bb in reach and cl.cfg.dominates(x.bb, b)]
+                okos = okos and bool(os_calls) and any("branch" in show(p.tree) and p.val == "Continue" for p in g)
+            ctx.judge(okos, "C30.os-before-state", "%s: %s -> %s only after the OS call succeeded" % (short(cl.q), S, to), expected="OS::dzmmap(..)? precedes Ok(Some(new_state))", found="rows=%d" % len(mine),
+                      where=where(cl), key="C30.os-before-state|%s|%s" % (cl.q, S))
     ctx.floor("C30.transition-table", nrows, 6, "non-diverging transition rows")
     # record_quarantined_range: its caller mapped the range before recording
     for q in ("quarantine_address_range_anywhere", "quarantine_address_range_preferred"):
